@@ -254,9 +254,12 @@ Section Check.
     let r := fold_left (run_step input) (c_prog k) r0 in
     let model := model_frame input r in
     let spec := r_spec r in
-    let pre := match c_mode k with
-               | CmpSubOf _ => rows (r_spec (fold_left (run_step input) (removelast (c_prog k)) r0))
-               | _ => [] end in
+    (* for CmpSubOf the reference is the result before the final limit (the spec's, resp. the model's) *)
+    let rp := match c_mode k with
+              | CmpSubOf _ => fold_left (run_step input) (removelast (c_prog k)) r0
+              | _ => r0 end in
+    let pre := match c_mode k with CmpSubOf _ => rows (r_spec rp) | _ => [] end in
+    let pre_m := match c_mode k with CmpSubOf _ => rows (model_frame input rp) | _ => [] end in
     let t2 := match c_exported k, r_tail r with
               | Some ss, None => list_eqb stage_eqb (nfs ics ss) (nfs ics (all_stages (r_x r)))
               | _, _ => false end in
@@ -264,7 +267,7 @@ Section Check.
     match c_impl k with
     | Some (gcols, grows) =>
         b2s t2
-        ++ b2s (r_ok r && list_eqb String.eqb gcols (cols model) && cmp_rows (c_mode k) (rows model) pre grows)
+        ++ b2s (r_ok r && list_eqb String.eqb gcols (cols model) && cmp_rows (c_mode k) (rows model) pre_m grows)
         ++ b2s (list_eqb String.eqb gcols (cols spec) && cmp_rows (c_mode k) (rows spec) pre grows)
         ++ b2s ms ++ b2s (r_dom r) ++ "0"
     | None => b2s t2 ++ "00" ++ b2s ms ++ b2s (r_dom r) ++ "1"
